@@ -387,3 +387,68 @@ class C06(NlpCheck):
                     return out
         self.count("time-vectors-compared", 7)
         return out
+
+
+@register
+class C02(NlpCheck):
+    pid = "C02"
+    slices = ["collocation-rows", "dae-rows", "root-times-and-samples"]
+    tags = ("defect", "alg", "cont")
+    profiles = [
+        ("collocation-rows",
+         {'methods': [('dc', 'rk')], 'grids': ALLGRIDS, 'horizon': HORIZ, 'obj_kinds': ['at_tf', 'integral'], 'ncons': (0, 1),
+          'features': {'pc': 0.6, 'pcp': 0.5, 'vc': 0.5, 'vcp': 0.4, 'p': 0.5, 'v': 0.4},
+          'Ns': [1, 2, 2, 3, 4], 'Ms': [1, 2, 2, 3, 4], 'degrees': [1, 2, 3, 4, 5]}, 45, 500),
+        ("dae-rows",
+         {'methods': [('dc', 'rk')], 'grids': FIXED_GRIDS + ['free'], 'horizon': ['num', 'freeT'], 'obj_kinds': ['at_tf'], 'ncons': (0, 1),
+          'features': {'dae': 1.0, 'pc': 0.5}, 'Ns': [1, 2, 3], 'Ms': [1, 2, 3], 'degrees': [1, 2, 3, 4]}, 25, 300),
+    ]
+
+    def explanation(self):
+        return ("theorems: Lagrange basis delta property for any distinct nodes; the polynomial through start and helper states "
+                "interpolates them; Xc·C[:,j]/dt = Π'(τ_j)/h with Π' the genuine derivative (HasDerivAt over ℝ); Xc·D = Π(1); defect / "
+                "continuity rows are members of the NLP with the stated arguments; a scaled equality row is feasible iff both sides "
+                "agree. correspondence: defect/alg/continuity atoms of the model are atoms of rockit's NLP at random points; root "
+                "times; algebraic samples on control/integrator grids")
+
+    def extra_compare(self, desc, res):
+        out = []
+        dl = Mo.desc_lines(desc)
+        m = desc['method']
+        N, M, d = m['N'], m['M'], m['degree']
+        for phys, mags in zip(res.phys, res.mags):
+            self.driver.send(dl)
+            self.driver.send(Mo.point_lines(desc, phys))
+            roots = None
+            for l in self.driver.run('grid'):
+                t = l.split()
+                if t[0] == 'roots':
+                    roots = [Mo.frac(v) for v in t[1:]]
+            vals = [v for c_ in phys['troots'] for v in c_]
+            mg = [v for c_ in mags['troots'] for v in c_]
+            if len(vals) != len(roots):
+                return [("number of collocation times %d, expected %d" % (len(vals), len(roots)), self.case_features(desc, 'roots', None))]
+            for i, (a, b_, g_) in enumerate(zip(roots, vals, mg)):
+                if not close(a, b_, max(g_, 1.0)):
+                    return [("collocation time %d is %s, expected t_(k,i)+tau_j*h = %s" % (i, float(b_), float(a)), self.case_features(desc, 'roots', i))]
+            if 'Zn' in phys:
+                Z = {}
+                zs = {}
+                for l in self.driver.run('states'):
+                    t = l.split()
+                    if t[0] == 'Z':
+                        Z[int(t[1])] = [Mo.frac(v) for v in t[2:]]
+                    elif t[0] == 'zs':
+                        zs[(int(t[1]), int(t[2]))] = [Mo.frac(v) for v in t[3:]]
+                for k in range(N + 1):
+                    for a, b_, g_ in zip(Z[k], phys['Zn'][k], mags['Zn'][k]):
+                        if not close(a, b_, max(g_, 1.0)):
+                            return [("sampled algebraic value at node %d: model %s impl %s" % (k, float(a), float(b_)), self.case_features(desc, 'z-node', k))]
+                for k in range(N):
+                    for i in range(M):
+                        for a, b_, g_ in zip(zs[(k, i)], phys['Zi'][k * M + i], mags['Zi'][k * M + i]):
+                            if not close(a, b_, max(g_, 1.0)):
+                                return [("sampled algebraic value at step (%d,%d): model %s impl %s" % (k, i, float(a), float(b_)), self.case_features(desc, 'z-step', (k, i)))]
+                self.count("z-samples-compared")
+        self.count("root-times-compared")
+        return out
